@@ -55,6 +55,17 @@ def build(c: dict[str, Any]):
             return jnp.flip(x, axis=a[0])
         if op == "ones":
             return jnp.ones(tuple(d(k) for k in r), dtype=x.dtype) * x.sum()
+        if op == "slice":
+            sl = {1: slice(1, None), 2: slice(None, -1), 3: slice(None, None, 2), 4: slice(-1, None), 5: slice(None, None, -1), 6: slice(1, None, 2)}[a[1]]
+            return x[sl] if a[0] == 0 else x[:, sl]
+        if op == "pad":
+            return jnp.pad(x, ((a[0], a[1]), (a[2], a[3])))
+        if op == "roll":
+            return jnp.roll(x, a[1], axis=a[0])
+        if op == "swapaxes":
+            return jnp.swapaxes(x, a[0], a[1])
+        if op == "moveaxis":
+            return jnp.moveaxis(x, a[0], a[1])
         if op == "sum_keepdims_squeeze":
             return jnp.squeeze(x.sum(axis=a[0], keepdims=True), axis=a[0])
         if op == "sum_reshape":
